@@ -223,7 +223,10 @@ func genE2E11(r *rand.Rand) e2eCase {
 		class = "near"
 		vK = []string{[]string{"floatN", "floatN", "digits", "digitsT"}[r.Intn(4)]}
 	}
-	shape := r.Intn(10)
+	shape := r.Intn(11)
+	if shape == 10 && r.Intn(2) == 0 {
+		shape = 11
+	}
 	if class == "near" {
 		shape = []int{1, 2, 6, 7, 7}[r.Intn(5)] // shapes that group by the generated object
 	}
@@ -298,6 +301,17 @@ func genE2E11(r *rand.Rand) e2eCase {
 		where, baseSel = `{?s "v"@[] ?o}`, []string{"?o", "?s"}
 		ex.Projs = []jproj{{Bind: "?o", Alias: "?val"}}
 		ex.GroupBy = []string{"?val"}
+	case 10:
+		// EMPTY CROSS PRODUCT: two clauses without a common binding, one of them without solutions
+		c.Shape = "empty-product"
+		where, baseSel = `{?s "v"@[] ?o . ?a "nothing"@[] ?x}`, []string{"?s", "?o", "?a", "?x"}
+		ex.Projs = []jproj{{Bind: "?s"}}
+		ex.GroupBy = []string{"?s"}
+	case 11:
+		c.Shape = "empty-product-first"
+		where, baseSel = `{?a "nothing"@[] ?x . ?s "v"@[] ?o}`, []string{"?s", "?o", "?a", "?x"}
+		ex.Projs = []jproj{{Bind: "?s"}}
+		ex.GroupBy = []string{"?s"}
 	case 8:
 		// NAME COLLISION: the alias of the grouping projection is the name of the pattern binding that is aggregated
 		c.Shape = "shadow"
